@@ -78,6 +78,14 @@ func main() {
 		}
 		os.Exit(1)
 	}
+	if os.Getenv("SIPVET_LIST_CAPTURES") != "" {
+		caps, n := loopCaptures(w)
+		fmt.Println("closures in loops:", n)
+		for _, lc := range caps {
+			fmt.Println("capture:", w.fname(lc.Fn), lc.Name, w.ipos(lc.MC))
+		}
+		return
+	}
 	if *listFuncs {
 		for _, fn := range w.All {
 			if fn.Parent() == nil {
